@@ -83,6 +83,26 @@ def order_cases():
                                  {'run': 'play', 'cls': 'OpA', 'rec': 0, 'enabled': False, 'script': play_script,
                                   'clock': [5, 6, 7]}],
                         'expect': {'1': [['ret', '("rec-%s",1)' % want]]}, 'journal_expect': []})
+    # a resolved alias (one key space per value of the resolving argument) with fallback aliases: a call whose own key and
+    # fallbacks are absent is a missing key, whatever other resolved aliases were looked up before it
+    for fb, fbfn, cap in itertools.product([['Z'], ['Z', 'Y']], [False, True], ['none', [[1, 'p1']]]):
+        q = site('Q', resolver={'arg': 0}, nargs=2, capture=cap, fallbacks=fb, fallbacksAsFunction=fbfn,
+                 body=[{'op': 'ret', 'e': {'t': [{'c': {'s': 'rec'}}, {'v': 'a0'}, {'v': 'a1'}]}}])
+
+        def call(x, a):
+            return {'op': 'call', 's': 'q', 'x': x, 'args': [{'c': {'i': str(a)}}, {'c': {'i': '5'}}]}
+        rec_script = [call('x0', 1), {'op': 'ret', 'e': {'c': None}}]
+        play_script = [call('y0', 1), call('y1', 2), call('y2', 1), {'op': 'ret', 'e': {'c': None}}]
+        for cassette in ('memory', 'file'):
+            out.append({'cassette': cassette, 'classes': {'OpA': {'params': None, 'classLevel': False, 'hasExtractor': False}},
+                        'sites': {'q': q},
+                        'runs': [{'run': 'op', 'cls': 'OpA', 'enabled': True, 'script': rec_script, 'draws': [], 'clock': [1, 2]},
+                                 {'run': 'play', 'cls': 'OpA', 'rec': 0, 'enabled': False, 'script': play_script,
+                                  'clock': [5, 6, 7]},
+                                 {'run': 'play', 'cls': 'OpA', 'rec': 0, 'enabled': True, 'script': play_script[1:],
+                                  'clock': [8, 9, 10]}],
+                        'expect': {'1': [['ret', '("rec",1,5)'], ['exc', 'RecordingKeyError'], ['ret', '("rec",1,5)']],
+                                   '2': [['exc', 'RecordingKeyError'], ['ret', '("rec",1,5)']]}, 'journal_expect': []})
     return out
 
 
@@ -94,7 +114,7 @@ class C02(RecorderProp):
             '(recorded program, different replayed program) with random policies, 1-3 replays per recording, on memory / file / '
             'S3 cassettes; spy cassette log and serialized store compared before/after every play; non-trivial = a replay that '
             'answered at least one interception; distinct = distinct canonical case')
-    OPTS = dict(ALL_OPTS, policies=True, same_script=0.25, play_ratio=0.65, runs=(2, 6), interrupts=False,
+    OPTS = dict(ALL_OPTS, policies=True, same_script=0.25, play_ratio=0.65, runs=(2, 6), interrupts=True,
                 cassettes=['memory', 'memory', 'file', 's3'])
     N = {'quick': 300, 'thorough': 12000}
 
